@@ -47,7 +47,7 @@ def make_text(rng, cls, i):
     if cls == "none":
         return None
     if cls == "ascii":
-        return base + rng.choice(["", " event", " A-b_c", " 100%", " x^2 ~ y", "  two  spaces ", " trailing ", "\ttab"])
+        return base + rng.choice(["", " event", " A-b_c", " 100%", " x^2 ~ y", "  two  spaces ", " trailing ", "\ttab", " line one \nline two", " a\t\nb"])
     if cls == "xml":
         return base + rng.choice([" <b>&amp;</b>", " a<b & c>d", ' "q" \'s\'', " ]]> <!-- x -->", " &lt;"])
     if cls == "accent":
@@ -131,7 +131,7 @@ def gen_spec(rng, scale_kind=None, n=None, direction=None, c08=False, text_class
     tcls = rng.choice(text_classes or TEXT_CLASSES)
     widths = rng.sample(range(8, 8 + 3 * n + 40), n)  # distinct widths: every box identifies its datum
     if rng.random() < 0.2:
-        widths = [w + 0.5 for w in widths]
+        widths = [w + rng.choice([0.5, 0.5, 0.7, 0.25]) for w in widths]
     if rng.random() < 0.05:
         widths[rng.randrange(n)] = rng.choice([0, 0.0, 1])  # still distinct from every other width
     data = []
@@ -152,10 +152,11 @@ def gen_spec(rng, scale_kind=None, n=None, direction=None, c08=False, text_class
         iw, ih = other + m["left"] + m["right"], axis_len + m["top"] + m["bottom"]
     opts = {"direction": direction, "initialWidth": iw, "initialHeight": ih, "margin": m, "scale": scale_kind}
     if rng.random() < 0.7:
-        opts["layerGap"] = rng.choice([1, 5, 30, 60, 60.5])
+        opts["layerGap"] = rng.choice([1, 5, 30, 60, 60.5, 30.7, 12.9, 45.25])
     if rng.random() < 0.4:
         opts["labelPadding"] = rng.choice([{"left": 0, "right": 0, "top": 1, "bottom": 1}, {"left": 5, "right": 1, "top": 2, "bottom": 7},
                                            {"left": 2.5, "right": 2, "top": 3, "bottom": 2}, {"left": 9, "right": 9, "top": 3, "bottom": 2},
+                                           {"left": 2.4, "right": 2.4, "top": 3.35, "bottom": 2.35}, {"left": 0.9, "right": 0.8, "top": 1.45, "bottom": 1.45},
                                            {"left": 0, "right": 1, "top": 12, "bottom": 9},
                                            {k: rng.choice([0, 1, 2, 3, 5, 9, 12]) for k in ("left", "right", "top", "bottom")}])
     lab = {}
